@@ -129,6 +129,7 @@ class CapturingCompiler(Compiler):
         try:
             self.header, self.sids = proto.header_lines(instance, init_state)
             self.init_vals = {id(o): o.time for o in self.sids.objs}
+            self.sample_values = [int(v) for l in self.header if l.startswith("ORC ") for v in l.split()[2:]]
             self.unrep = None
         except canon.Unrepresentable as e:
             self.header, self.sids, self.unrep = None, None, str(e)
@@ -241,7 +242,8 @@ class Run:
         self.init_state = self.compiler.last[1]
         self.init_vals = dict(self.compiler.init_vals)
         self.stoch_objs = list(self.compiler.sids.objs)
-        self.out.append("G " + " ".join(canon.b01(x) for x in guards(self.instance, self.init_state)))
+        samples = all(v >= 0 for v in self.compiler.sample_values)
+        self.out.append("G " + " ".join(canon.b01(x) for x in guards(self.instance, self.init_state) + (samples,)))
         self.out.append(f"L {env.lower_bound} {env.max_allowed_time}")
         self._emit_micro(micro)
         self.out += res_lines(env.state)
@@ -515,7 +517,22 @@ def guards(inst, st):
                 for b in st_bufs)
             and all(any(b.id == j.location and j.id in b.store for b in st_bufs) for j in st.jobs))
     cap = all(c.id != b.id or len(b.store) <= c.capacity for b in st_bufs for c in cfg_bufs)
-    return wf, shape, cons, cap
+    from jobshoplab.types.instance_config_types import DeterministicTimeConfig
+    from jobshoplab.types.state_types import (MachineStateState as _MS, OperationStateState as _OS,
+                                              TransportStateState as _TS, TimeDependency as _TD)
+    rest = (all(m.state == _MS.IDLE and len(m.buffer.store) == 0 for m in st.machines)
+            and all(o.operation_state_state == _OS.IDLE for j in st.jobs for o in j.operations)
+            and all(t.state == _TS.IDLE and t.transport_job is None and not isinstance(t.occupied_till, _TD)
+                    for t in st.transports))
+
+    def nn(t):
+        return not isinstance(t, DeterministicTimeConfig) or t.time >= 0
+    nonneg = (all(nn(o.duration) for j in inst.instance.specification for o in j.operations)
+              and all(nn(v) for m in inst.machines for v in m.setup_times.values())
+              and all(nn(o.duration) for m in inst.machines for o in m.outages)
+              and all(nn(v) for v in inst.logistics.travel_times.values())
+              and all(nn(o.duration) for t in inst.transports for o in t.outages))
+    return wf, shape, cons, cap, rest, nonneg
 
 
 def conflict_free(offers, rnd, p=0.7):
